@@ -52,6 +52,7 @@ class RecFitter:
         self.calls = []
         self.outs = []
         self.slot = 0
+        self.xslot = 0
         if mode == 'real':
             from astropy.modeling.fitting import TRFLSQFitter
             self.real = TRFLSQFitter()
@@ -77,10 +78,19 @@ class RecFitter:
             rec['by'].append(tuple(py.bounds))
             rec['fixed'].append((bool(pf.fixed), bool(px.fixed), bool(py.fixed)))
         self.calls.append(rec)
+        extra_names = [nm for nm in (model.param_names if n == 1 else model[0].param_names)
+                       if nm not in ('flux', 'x_0', 'y_0')]
         if self.mode == 'script':
             out = model.copy()
             vals = self._script(rec, n)
             info = self._script_info(rec, n, len(z), model)
+            # further free parameters (fwhm, ...): a distinct dyadic value per source and parameter
+            for j in range(n):
+                for q, base in enumerate(extra_names):
+                    p = getattr(out, self._pname(base, j, n))
+                    if not p.fixed:
+                        self.xslot += 1
+                        setattr(out, self._pname(base, j, n), 1.0 + (self.xslot % 61) / 8)
         else:
             out = self.real(model, x, y, z, weights=weights, maxiter=maxiter)
             vals = []
@@ -91,6 +101,11 @@ class RecFitter:
                     v.append(float(p.value) if p.fixed else round(float(p.value) / self.grid) * self.grid)
                 vals.append(tuple(v))
             info = self._real_info(out)
+            for j in range(n):
+                for base in extra_names:
+                    p = getattr(out, self._pname(base, j, n))
+                    if not p.fixed:
+                        setattr(out, self._pname(base, j, n), round(float(p.value) / self.grid) * self.grid)
         for j in range(n):
             for base, v in zip(('x_0', 'y_0', 'flux'), vals[j]):
                 p = getattr(out, self._pname(base, j, n))
@@ -98,8 +113,11 @@ class RecFitter:
                     setattr(out, self._pname(base, j, n), v)
         final = [tuple(float(getattr(out, self._pname(b, j, n)).value) for b in ('x_0', 'y_0', 'flux'))
                  for j in range(n)]
+        extra = [[float(getattr(out, self._pname(base, j, n)).value) for base in extra_names
+                  if not getattr(out, self._pname(base, j, n)).fixed] for j in range(n)]
         self.fit_info = info
-        self.outs.append({'par': final, 'info': info, 'ids': rec['ids']})
+        self.outs.append({'par': final, 'info': info, 'ids': rec['ids'], 'extra': extra,
+                          'extra_names': [b for b in extra_names if not getattr(out, self._pname(b, 0, n)).fixed]})
         return out
 
     # ---- scripted outputs ----
@@ -187,7 +205,10 @@ def make_psf(spec):
     if kind == 'cgprf':
         m = CircularGaussianPRF(fwhm=spec['fwhm'])
     elif kind == 'gprf':
-        m = GaussianPRF(x_fwhm=spec['fwhm'], y_fwhm=spec['fwhm'] * 1.25, theta=0.0)
+        m = GaussianPRF(x_fwhm=spec['fwhm'], y_fwhm=spec.get('y_fwhm', spec['fwhm'] * 1.25), theta=0.0)
+    elif kind == 'moffat':
+        from photutils.psf import MoffatPSF
+        m = MoffatPSF(alpha=spec['alpha'], beta=spec.get('beta', 2.5))
     elif kind in ('image', 'gridded'):
         from astropy.nddata import NDData
         os_ = spec.get('oversampling', 1)
@@ -275,6 +296,8 @@ def init_table(case):
         t['local_bkg'] = [float(v) for v in case['local_bkg']]
     if case['grouping']['kind'] == 'user':
         t['group_id'] = case['grouping']['gids']
+    for nm, vals in (case.get('extra_init') or {}).items():
+        t[nm] = [float(v) for v in vals]
     return t
 
 
@@ -290,13 +313,18 @@ def run_impl(case):
     mask = arr(case['mask'], bool)
     error = arr(case['error'])
     fitter = RecFitter(case['mode'], case['fseed'], data.shape, case['infokind'])
-    res = {'code': 0, 'table': None, 'exc': None, 'errind': [], 'phot': None}
+    res = {'code': 0, 'table': None, 'exc': None, 'errind': [], 'phot': None, 'mask_after': None}
     with warnings.catch_warnings(record=True) as w:
         warnings.simplefilter('always')
         try:
             phot = build_phot(case, fitter)
-            tbl = phot(data.copy(), mask=None if mask is None else mask.copy(),
-                       error=None if error is None else error.copy(), init_params=init_table(case))
+            mask_arg = None if mask is None else mask.copy()      # the caller's bad-pixel mask object
+            try:
+                tbl = phot(data.copy(), mask=mask_arg,
+                           error=None if error is None else error.copy(), init_params=init_table(case))
+            finally:
+                if mask_arg is not None and not np.array_equal(mask_arg, mask):
+                    res['mask_after'] = mask_arg
             res['table'] = tbl
             res['errind'] = [int(v) for v in phot.fit_info['fit_error_indices']]
             res['phot'] = phot
@@ -447,7 +475,8 @@ def to_coq(case, res):
                      None if info.get('status') is None else Some(int(info['status'])),
                      cov_t,
                      None if fv is None else Some([zs(v, sc) for v in fv]),
-                     None if fn is None else Some([zs(v, sc) for v in fn])))
+                     None if fn is None else Some([zs(v, sc) for v in fn]),
+                     [[zs(v, sc) for v in ex] for ex in o.get('extra', [[] for _ in o['par']])]))
     calls = []
     for c in res['calls']:
         init = []
@@ -462,6 +491,7 @@ def to_coq(case, res):
         calls.append([[Some(v) for v in c['ids']], init, bx, by,
                       [Some(v) for v in c['yi']], [Some(v) for v in c['xi']], cut])
     rows, metrics = [], []
+    xnames = res['outs'][0].get('extra_names', []) if res['outs'] else []
     if tbl is not None:
         cols = {k: colvals(tbl, k) for k in ('local_bkg', 'x_init', 'y_init', 'flux_init', 'x_fit', 'y_fit',
                                              'flux_fit', 'x_err', 'y_err', 'flux_err')}
@@ -470,7 +500,8 @@ def to_coq(case, res):
                          ozs(cols['local_bkg'][i], sc), ozs(cols['x_init'][i], sc), ozs(cols['y_init'][i], sc),
                          ozs(cols['flux_init'][i], sc), ozs(cols['x_fit'][i], sc), ozs(cols['y_fit'][i], sc),
                          ozs(cols['flux_fit'][i], sc), ozs(cols['x_err'][i], sc), ozs(cols['y_err'][i], sc),
-                         ozs(cols['flux_err'][i], sc), Some(int(tbl['npixfit'][i])), Some(int(tbl['flags'][i]))])
+                         ozs(cols['flux_err'][i], sc), Some(int(tbl['npixfit'][i])), Some(int(tbl['flags'][i]))] +
+                        [ozs(float(getattr(tbl[nm + '_fit'][i], 'value', tbl[nm + '_fit'][i])), sc) for nm in xnames])
             metrics.append((qv(tbl['qfit'][i]), qv(tbl['cfit'][i])))
     expected = (res['code'], res['warn_nf'], calls, rows, metrics, res['errind'])
     term = ((ny, nx, fy, fx, sc), (fin_l, mask_t), data_l, errbad, xyb_t, (fixd, nextra),
@@ -504,6 +535,29 @@ def clusters_single_linkage(x, y, t):
             seen[r] = len(seen) + 1
         ids.append(seen[r])
     return ids
+
+
+def second_call_same_mask(case, mask_after, mask_orig):
+    """The call wrote into the caller's mask array.  Consequence inside this property: a later call that is
+    handed the SAME mask object with an image that is finite everywhere loses pixels that are neither masked
+    by the user nor non-finite: npixfit / flag 1 no longer reflect the mask."""
+    c2 = dict(case)
+    d = arr(case['data'])
+    c2['data'] = jarr(np.where(np.isfinite(d), d, 0.0))
+    c2['mask'] = mask_after.astype(int).tolist()
+    r_same = run_impl(c2)
+    c2['mask'] = mask_orig.astype(int).tolist()
+    r_fresh = run_impl(c2)
+    n_extra = int(np.count_nonzero(mask_after & ~mask_orig))
+    detail = ''
+    if r_same['table'] is not None and r_fresh['table'] is not None:
+        detail = (f"; second call on a finite image with the same mask object: npixfit {[int(v) for v in r_same['table']['npixfit']]}"
+                  f" flags {[int(v) for v in r_same['table']['flags']]} instead of {[int(v) for v in r_fresh['table']['npixfit']]}"
+                  f" {[int(v) for v in r_fresh['table']['flags']]}")
+    elif r_same['code'] != r_fresh['code']:
+        detail = f"; second call with the same mask object ends with outcome {r_same['code']} instead of {r_fresh['code']}"
+    return ('_make_mask:caller-mask-modified',
+            f'the call set {n_extra} pixel(s) of the caller\'s mask array (the non-finite pixels of this image)' + detail)
 
 
 def oracle(case, res):
@@ -567,6 +621,8 @@ def oracle(case, res):
                                                   and res['code'] == 99) else 'PSFPhotometry:outcome'
         out.append((sig, f"outcome code {res['code']} ({res['exc']}) but the property expects {expect_code}"))
         return out
+    if res.get('mask_after') is not None:
+        out.append(second_call_same_mask(case, res['mask_after'], mask))
     if (bad & ~(mask if mask is not None else np.zeros_like(bad))).any() != res['warn_nf']:
         out.append(('_make_mask:warning', 'non-finite-values warning does not match the data/mask'))
     if expect_code != 0:
@@ -577,10 +633,11 @@ def oracle(case, res):
         return out
     # rows in id order (= input order when ids are 1..N)
     rowsrc = sorted(range(n), key=lambda i: ids[i])
-    byid = {}
+    byid, xbyid = {}, {}
     for o in res['outs']:
-        for sid, par in zip(o['ids'], o['par']):
+        for k_sub, (sid, par) in enumerate(zip(o['ids'], o['par'])):
             byid[sid] = (par, o['info'])
+            xbyid[sid] = dict(zip(o.get('extra_names', []), o.get('extra', [[]] * len(o['ids']))[k_sub]))
     psf = make_psf(case['psf'])
     fixd, nextra_ = psf_fixed_nextra(psf)
     xyb = case['xy_bounds']
@@ -627,6 +684,12 @@ def oracle(case, res):
             bad_('PSFPhotometry:fit-call', 'no fitter call carried this source')
             continue
         (xf, yf, ff), info = byid[ids[i]]
+        # further free parameters (fwhm, alpha, ...): the *_fit column carries the value fitted for THIS source
+        for nm, xv in xbyid.get(ids[i], {}).items():
+            gv = tbl[nm + '_fit'][r]
+            gv = float(getattr(gv, 'value', gv))
+            if gv != xv:
+                bad_('_order_by_id:extra-params', f'{nm}_fit {gv} is not the value the fitter returned for this source ({xv})')
         got = (float(tbl['x_fit'][r]), float(tbl['y_fit'][r]), float(getattr(tbl['flux_fit'][r], 'value', tbl['flux_fit'][r])))
         if got != (xf, yf, ff):
             bad_('_order_by_id:fit-params', f'fit values {got} are not those the fitter returned for this source {(xf, yf, ff)}')
@@ -1005,6 +1068,79 @@ def gen_real_case(rng, big=False, plain=False):
     return case
 
 
+def gen_real_free_case(rng):
+    """Noise-free scene rendered (every source over its OWN bounding box) from a PSF model with further FREE
+    shape parameters whose true values differ from source to source, some wider than the template default;
+    init_params with or without the extra columns."""
+    from photutils.datasets import make_model_image
+    from astropy.table import Table
+    kind = rng.choice(['cgprf', 'cgprf', 'gprf', 'moffat'])
+    if kind == 'cgprf':
+        spec = {'kind': 'cgprf', 'fwhm': 2.0, 'free': ['fwhm']}
+        widths = {'fwhm': [2.0, 2.5, 3.0, 4.0, 5.0]}
+    elif kind == 'gprf':
+        spec = {'kind': 'gprf', 'fwhm': 2.0, 'y_fwhm': 2.5, 'free': ['x_fwhm', 'y_fwhm']}
+        widths = {'x_fwhm': [2.0, 3.0, 4.0], 'y_fwhm': [2.5, 3.0, 4.5]}
+    else:
+        spec = {'kind': 'moffat', 'fwhm': 3.0, 'alpha': 2.0, 'beta': 2.5, 'free': ['alpha']}
+        widths = {'alpha': [1.5, 2.0, 2.5, 3.0]}
+    psf = make_psf(spec)
+    cell = 48
+    gy_, gx_ = rng.choice([(1, 2), (1, 2), (2, 2), (1, 3)])
+    ny, nx = gy_ * cell, gx_ * cell
+    xs, ys, fl, grp = [], [], [], []
+    extra = {k: [] for k in widths}
+    for a in range(gy_):
+        for b in range(gx_):
+            cy, cx = a * cell + cell / 2 + q8(rng, -2, 2), b * cell + cell / 2 + q8(rng, -2, 2)
+            pts = [(cx, cy)]
+            if rng.random() < 0.3:     # an overlapping pair, fitted as one group
+                sep = rng.choice([7.0, 8.0, 9.0])
+                th = rng.uniform(0, 2 * math.pi)
+                pts.append((cx + sep * math.cos(th), cy + sep * math.sin(th)))
+            for (px, py) in pts:
+                xs.append(px + rng.uniform(-0.05, 0.05))
+                ys.append(py + rng.uniform(-0.05, 0.05))
+                fl.append(rng.uniform(200, 2000))
+                grp.append(a * gx_ + b + 1)
+                for k, v in widths.items():
+                    extra[k].append(rng.choice(v))
+    n = len(xs)
+    if all(extra[k][i] == getattr(psf, k).value for k in extra for i in range(n)):
+        k0 = next(iter(extra))
+        extra[k0][rng.randrange(n)] = widths[k0][-1]       # at least one source differs from the template
+    perm = list(range(n))
+    rng.shuffle(perm)
+    xs, ys, fl, grp = ([v[i] for i in perm] for v in (xs, ys, fl, grp))
+    extra = {k: [v[i] for i in perm] for k, v in extra.items()}
+    truth = Table({'x_0': xs, 'y_0': ys, 'flux': fl, **extra})
+    data = make_model_image((ny, nx), psf, truth)          # model_shape=None: each source over its own bbox
+    f = rng.choice([11, 13, 15])
+    xi = [round((v + rng.uniform(-0.4, 0.4)) * 8) / 8 for v in xs]
+    yi = [round((v + rng.uniform(-0.4, 0.4)) * 8) / 8 for v in ys]
+    flux0 = [round(v * rng.uniform(0.8, 1.2) * 8) / 8 for v in fl]
+    extra_init = None
+    if rng.random() < 0.5:
+        extra_init = {k: [round(v * rng.uniform(0.85, 1.15) * 64) / 64 for v in vals] for k, vals in extra.items()}
+    if rng.random() < 0.5:
+        labels = rng.sample(range(1, 30), gy_ * gx_)
+        grouping = {'kind': 'user', 'gids': [labels[g - 1] for g in grp]}
+    else:
+        grouping = {'kind': 'sep', 't': 14.0}
+    mask = None
+    if rng.random() < 0.25:
+        mask = np.zeros((ny, nx), bool)
+        for _ in range(rng.randint(1, 4)):
+            mask[rng.randrange(ny), rng.randrange(nx)] = True
+    return {'mode': 'real', 'sc': 2 ** 20, 'cmpcut': False, 'fit_shape': [f, f], 'data': jarr(data),
+            'mask': None if mask is None else mask.astype(int).tolist(), 'error': None,
+            'x': xi, 'y': yi, 'flux': flux0, 'ids': None, 'local_bkg': None, 'grouping': grouping,
+            'xy_bounds': rng.choice([None, None, 2.0]), 'psf': spec, 'infokind': {}, 'fseed': 0,
+            'aperture_radius': 4.0, 'localbkg': None, 'extra_init': extra_init, 'free_shape': True,
+            'truth': {'x': xs, 'y': ys, 'flux': fl, 'bkg': 0.0, 'half': None, 'extra': extra},
+            'klass': ['real', 'free-shape']}
+
+
 # ---------------------------------------------------------------------------
 # support tests (partial clauses: depend on the optimiser)
 # ---------------------------------------------------------------------------
@@ -1021,6 +1157,12 @@ def recovery_check(case, res, tol=2e-3):
         worst = max(worst, dx, dy, df)
         if max(dx, dy, df) > tol:
             msgs.append(f'row {i}: dx={dx:.2e} dy={dy:.2e} dflux/flux={df:.2e} flags={int(tbl["flags"][i])}')
+        for nm, vals in (t.get('extra') or {}).items():
+            de = abs(float(tbl[nm + '_fit'][i]) - vals[i]) / vals[i]
+            worst = max(worst, de)
+            if de > tol:
+                msgs.append(f'row {i}: {nm}_fit={float(tbl[nm + "_fit"][i]):.5f} but the source was rendered with '
+                            f'{nm}={vals[i]} (flags={int(tbl["flags"][i])})')
     return not msgs, worst, '; '.join(msgs[:4])
 
 
@@ -1046,6 +1188,9 @@ def run(ctx):
         'NaN/inf pixels, masks (random, empty, central pixel, whole window, rows/cols), error maps (dyadic, zeros/NaN/inf), '
         'local_bkg column, xy_bounds variants, fixed/free parameter sets, 5 fit_info layouts; the fitter returns scripted '
         'dyadic values (at bounds, outside the image, flux <= 0, non-converged codes, missing covariance). '
+        'real mode (free shape): CircularGaussianPRF with fwhm free / GaussianPRF with x_fwhm,y_fwhm free / MoffatPSF with alpha free, '
+        'true widths differing per source (some wider than the template default), rendered over each source own bounding box, '
+        'init_params with or without the extra columns. '
         'real mode: noise-free scenes rendered with make_model_image from CircularGaussianPRF/GaussianPRF/ImagePSF'
         '(oversampling 1,2)/GriddedPSFModel, groups of 1-3 overlapping sources, shuffled rows, fitted with TRFLSQFitter '
         '(results rounded to 2^-20). non-trivial = successful run with >= 2 sources; distinct = distinct case description')
@@ -1076,6 +1221,7 @@ def run(ctx):
     n_real = 45 if quick else 300
     cases = [gen_script_case(ctx.rng) for _ in range(n_script)]
     cases += [gen_real_case(ctx.rng) for _ in range(n_real)]
+    cases += [gen_real_free_case(ctx.rng) for _ in range(12 if quick else 80)]
     terms, kept, results = [], [], []
     for case in cases:
         res = run_impl(case)
@@ -1222,6 +1368,12 @@ def support_real(ctx, case, res):
         return
     phot = res['phot']
     data = arr(case['data'])
+    if case.get('free_shape'):
+        for sig, msg in free_shape_images(case, res):
+            ctx.violation(sig, msg, {'case': case, 'cmd': 'bin/check C12 --replay <this file>'})
+        ctx.support('free shape parameters differing between sources: recovery of the extra parameters, residual image ~ 0 '
+                    '(psf_shape None and explicit), model image == superposition computed from the *_fit columns')
+        return
     resid = phot.make_residual_image(data, psf_shape=(2 * t['half'] + 1, 2 * t['half'] + 1)) - t['bkg']
     good = np.isfinite(resid)
     if case.get('junk'):
@@ -1232,6 +1384,45 @@ def support_real(ctx, case, res):
         ctx.violation('make_residual_image:nonzero', f'max |residual| = {worst_r}',
                       {'case': case, 'cmd': 'bin/check C12 --replay <this file>'})
     d['worst_residual'] = max(d.get('worst_residual', 0.0), worst_r)
+
+
+def free_shape_images(case, res):
+    """Model / residual images of a fit whose sources have different fitted shape parameters."""
+    from photutils.datasets import make_model_image
+    from astropy.table import Table
+    out = []
+    phot, tbl, t = res['phot'], res['table'], case['truth']
+    data = arr(case['data'])
+    good = np.isfinite(data)
+    peak = float(np.max(data[good]))
+    psf = make_psf(case['psf'])
+    fitted = Table({'x_0': np.asarray(tbl['x_fit'], float), 'y_0': np.asarray(tbl['y_fit'], float),
+                    'flux': np.asarray(tbl['flux_fit'], float),
+                    **{nm: np.asarray(tbl[nm + '_fit'], float) for nm in t['extra']}})
+    with warnings.catch_warnings():
+        warnings.simplefilter('ignore')
+        # (a) residual image ~ 0, every fitted model rendered over its own bounding box (psf_shape=None)
+        r0 = phot.make_residual_image(data)
+        w0 = float(np.max(np.abs(r0[good])))
+        if w0 > 1e-4 * peak:
+            iy, ix = np.unravel_index(np.argmax(np.abs(np.where(good, r0, 0))), r0.shape)
+            out.append(('make_residual_image:nonzero', f'psf_shape=None: max |residual| = {w0:.4g} at (x, y) = ({ix}, {iy}), '
+                        f'image peak {peak:.4g}, although the table recovers the rendered parameters'))
+        # (b) model image == superposition of the PSF model evaluated with EVERY *_fit column of the table
+        for shp in (None, (25, 25), (41, 41)):
+            mi = phot.make_model_image(data.shape, psf_shape=shp)
+            want = make_model_image(data.shape, psf, fitted, model_shape=shp)
+            d = float(np.max(np.abs(mi - want)))
+            if d > 1e-9 * max(peak, 1.0):
+                out.append(('make_model_image:superposition', f'psf_shape={shp}: model image differs from the superposition of '
+                            f'the fitted models (x, y, flux and {list(t["extra"])} from the table) by {d:.4g} (peak {peak:.4g})'))
+            # (c) explicit shape: residual == data - that superposition
+            if shp is not None:
+                rr = phot.make_residual_image(data, psf_shape=shp)
+                d2 = float(np.max(np.abs((rr - (data - want))[good])))
+                if d2 > 1e-9 * max(peak, 1.0):
+                    out.append(('make_residual_image:superposition', f'psf_shape={shp}: residual != data - superposition ({d2:.4g})'))
+    return out
 
 
 def scaled_case(case, k):
@@ -1517,6 +1708,8 @@ def replay(obj):
         ok, worst, msg = recovery_check(case, res)
         if not ok:
             viol = [('PSFPhotometry:recovery', msg)]
+        elif case.get('free_shape'):
+            viol = free_shape_images(case, res)
     for sig, msg in viol:
         print(f'[{sig}] {msg}')
     print('property holds on this input' if not viol else 'property FAILS on this input')
